@@ -402,3 +402,49 @@ Definition claim_step (taken : list (string * string)) (c : string * string) : l
   match assoc (fst c) taken with Some _ => taken | None => taken ++ [c] end.
 Definition route_conversion (l : list groute) : list (string * string) :=
   fold_left claim_step (flat_map gr_claims (sort_routes l)) [].
+
+(* ================================================================== *)
+(* 6. EndpointSlices (convutils.createEndpointSlices, ingress addEndpoints) *)
+(* ================================================================== *)
+(* a slice: its TCP ports (name, number) and endpoints (first address, conditions.ready:
+   None = unknown = ready).  The slices come in the order the lister returns them. *)
+Record slice := { sl_ports : list (string * Z); sl_eps : list (string * option bool) }.
+
+Definition ep_ready (e : string * option bool) : bool := match snd e with Some false => false | _ => true end.
+
+(* createEndpointSlices for the service port named pname ("" matches every port): the
+   (target, ready?) entries in the order of the code: slice, port, endpoint *)
+Definition slice_entries (pname : string) (s : slice) : list ((string * Z) * bool) :=
+  flat_map (fun p => if String.eqb pname "" || String.eqb pname (fst p)
+                     then map (fun e => ((fst e, snd p), ep_ready e)) (sl_eps s) else [])
+           (sl_ports s).
+Definition slices_entries (pname : string) (l : list slice) : list ((string * Z) * bool) :=
+  flat_map (slice_entries pname) l.
+
+Definition target_eqb (a b : string * Z) : bool := String.eqb (fst a) (fst b) && Z.eqb (snd a) (snd b).
+Definition ready_targets (es : list ((string * Z) * bool)) : list (string * Z) := map fst (filter snd es).
+Definition notready_targets (es : list ((string * Z) * bool)) : list (string * Z) :=
+  map fst (filter (fun e => negb (snd e)) es).
+
+(* addEndpoints: AcquireEndpoint for every ready target, then with drain-support every not
+   ready target is acquired as well and gets weight 0.  The server of a target: None = no
+   server, Some true = serving, Some false = weight 0 *)
+Definition slice_server (drain : bool) (pname : string) (l : list slice) (t : string * Z) : option bool :=
+  let es := slices_entries pname l in
+  if drain && existsb (target_eqb t) (notready_targets es) then Some false
+  else if existsb (target_eqb t) (ready_targets es) then Some true
+  else None.
+
+(* a de-duplication that keeps the first entry of a target, whatever its readiness (not the
+   code: what a `seen` set keyed by ip:port in createEndpointSlices would do) *)
+Fixpoint dedup_first (seen : list (string * Z)) (es : list ((string * Z) * bool)) : list ((string * Z) * bool) :=
+  match es with
+  | [] => []
+  | e :: r => if existsb (target_eqb (fst e)) seen then dedup_first seen r
+              else e :: dedup_first (fst e :: seen) r
+  end.
+Definition slice_server_dedup_first (drain : bool) (pname : string) (l : list slice) (t : string * Z) : option bool :=
+  let es := dedup_first [] (slices_entries pname l) in
+  if drain && existsb (target_eqb t) (notready_targets es) then Some false
+  else if existsb (target_eqb t) (ready_targets es) then Some true
+  else None.
